@@ -18,18 +18,27 @@
 (***************************************************************************)
 EXTENDS TimeLabels, FiniteSets, SequencesExt, Json, IOUtils
 
-CONSTANTS MaxItems,    \* labels + instructions in a program
-          MaxBlocks,   \* blocks in a program
-          MaxDepth,    \* nesting depth
-          Small        \* TRUE: reduced label alphabet (used for the nested family)
+CONSTANT Families     \* which bounded families this run enumerates (names below)
+
+\* bounds of a family: n = labels + instructions, b = blocks, d = nesting depth,
+\* small = reduced label alphabet (used for the nested families)
+Bounds(f) ==
+    CASE f = "flat4"  -> [n |-> 4, b |-> 0, d |-> 0, small |-> FALSE]
+      [] f = "flat5"  -> [n |-> 5, b |-> 0, d |-> 0, small |-> FALSE]
+      [] f = "nest1"  -> [n |-> 3, b |-> 1, d |-> 1, small |-> TRUE]
+      [] f = "nest1w" -> [n |-> 4, b |-> 1, d |-> 1, small |-> TRUE]
+      [] f = "nest2"  -> [n |-> 2, b |-> 2, d |-> 2, small |-> TRUE]
+      [] f = "nest2w" -> [n |-> 3, b |-> 2, d |-> 2, small |-> TRUE]
 
 ILit(v) == [k |-> "int", v |-> v]
 
-AbsToks == IF Small THEN {"a-1", "a10"} ELSE {"a-1", "a0", "a10"}
-RelToks == IF Small THEN {"r5", "rneg"} ELSE {"r0", "r5", "rmul", "rneg", "rmax"}
-Content == AbsToks \cup RelToks \cup {"I"}
+AllAbs == {"a-1", "a0", "a10"}
+AllRel == {"r0", "r5", "rmul", "rneg", "rmax"}
+AbsToks(small) == IF small THEN {"a-1", "a10"} ELSE AllAbs
+RelToks(small) == IF small THEN {"r5", "rneg"} ELSE AllRel
+ContentOf(small) == AbsToks(small) \cup RelToks(small) \cup {"I"}
+AnyContent == AllAbs \cup AllRel \cup {"I"}
 Opens   == {"{", "L{", "F{"}
-Alphabet == Content \cup Opens \cup {"}"}
 
 \* the value a label token denotes, written down directly (not through ExprSem)
 AbsVal(x) == CASE x = "a-1" -> -1 [] x = "a0" -> 0 [] x = "a10" -> 10
@@ -87,24 +96,25 @@ RECURSIVE Fold(_, _, _)
 Fold(toks, i, cur) ==
     IF i > Len(toks) THEN <<>>
     ELSE LET x == toks[i] IN
-         IF x \in AbsToks THEN Fold(toks, i + 1, AbsVal(x))
-         ELSE IF x \in RelToks THEN Fold(toks, i + 1, Add(cur, RelVal(x)))
+         IF x \in AllAbs THEN Fold(toks, i + 1, AbsVal(x))
+         ELSE IF x \in AllRel THEN Fold(toks, i + 1, Add(cur, RelVal(x)))
          ELSE IF x = "I" THEN << cur >> \o Fold(toks, i + 1, cur)
          ELSE Fold(toks, i + 1, cur)
 
-\* ---- the token machine.  A node carries the token sequence and its counters
+\* ---- the token machine.  A node carries its family, the token sequence and its counters
 \*      (n = labels + instructions, b = blocks opened, d = current depth).
-Root == [t |-> <<>>, n |-> 0, b |-> 0, d |-> 0]
+Root(f) == [f |-> f, t |-> <<>>, n |-> 0, b |-> 0, d |-> 0]
 Succ(p) ==
-    (IF p.n < MaxItems THEN {[p EXCEPT !.t = Append(p.t, x), !.n = p.n + 1] : x \in Content} ELSE {})
-    \cup (IF p.b < MaxBlocks /\ p.d < MaxDepth
+    LET B == Bounds(p.f) IN
+    (IF p.n < B.n THEN {[p EXCEPT !.t = Append(p.t, x), !.n = p.n + 1] : x \in ContentOf(B.small)} ELSE {})
+    \cup (IF p.b < B.b /\ p.d < B.d
           THEN {[p EXCEPT !.t = Append(p.t, x), !.b = p.b + 1, !.d = p.d + 1] : x \in Opens} ELSE {})
     \cup (IF p.d > 0 THEN {[p EXCEPT !.t = Append(p.t, "}"), !.d = p.d - 1]} ELSE {})
 Complete(p) == p.d = 0 /\ \E i \in 1..Len(p.t) : p.t[i] = "I"
 
 VARIABLE prog
 toks == prog.t
-Init == prog = Root
+Init == prog \in {Root(f) : f \in Families}
 Next == prog' \in Succ(prog)
 Spec == Init /\ [][Next]_prog
 
@@ -112,7 +122,7 @@ Spec == Init /\ [][Next]_prog
 Inv ==
     LET E == Expected(toks) IN
     /\ E = Fold(toks, 1, 0)                                          \* nesting commutes with the label rules
-    /\ (prog.b > 0 => E = Expected(SelectSeq(toks, LAMBDA x : x \in Content)))   \* times of a tree = times of its flattening
+    /\ (prog.b > 0 => E = Expected(SelectSeq(toks, LAMBDA x : x \in AnyContent)))   \* times of a tree = times of its flattening
     /\ \A i \in 1..Len(E) : IsI32(E[i])                              \* closed under wrap-around
     /\ Len(E) = Cardinality({i \in 1..Len(toks) : toks[i] = "I"})    \* exactly one time per instruction
 
@@ -124,10 +134,10 @@ ASSUME ITimes(Annotate(DocExample2)) = << 4, 10 >>
 
 \* ---- export: the complete programs of the same machine, collected depth-first
 RECURSIVE Below(_), BelowAll(_, _)
-Below(p) == (IF Complete(p) THEN << p.t >> ELSE <<>>) \o BelowAll(SetToSeq(Succ(p)), 1)
+Below(p) == (IF Complete(p) THEN << p >> ELSE <<>>) \o BelowAll(SetToSeq(Succ(p)), 1)
 BelowAll(ps, i) == IF i > Len(ps) THEN <<>> ELSE Below(ps[i]) \o BelowAll(ps, i + 1)
-CaseOf(t) == [toks |-> t, body |-> Tree(t), exp |-> Expected(t)]
-ASSUME LET P == Below(Root) IN
+CaseOf(p) == [fam |-> p.f, toks |-> p.t, body |-> Tree(p.t), exp |-> Expected(p.t)]
+ASSUME LET P == BelowAll(SetToSeq({Root(f) : f \in Families}), 1) IN
        /\ ndJsonSerialize(IOEnv.OUT, [i \in 1..Len(P) |-> CaseOf(P[i])])
        /\ PrintT(<<"GEN", "Gen_LabelSeqs", Len(P)>>)
 ===========================================================================
